@@ -85,6 +85,24 @@ theorem C06_newpop_marginal (grids : List (Array ℚ)) (zz : Array ℚ) (f : Lis
   obtain ⟨h0, h1⟩ := adZ_simplex f.length f grids idx (le_refl _) hs hgl hil hg
   exact depositOk_of_range zz _ _ hz.1 (by rw [hz.2.1]; exact h0) (by rw [hz.2.2]; exact h1)
 
+/-- the hypotheses are satisfiable (a grid from 0 to 1, a simplex vector, an index of the box) and the statement is not
+    vacuous: on this instance the constructor's marginal, the pulse's marginal and the zero pulse hold by evaluation, while
+    the pulse with proportion 1/3 does change the density itself -/
+example : Grid01 #[0, 1/4, 1] ∧ Simplex [1/3] := by
+  refine ⟨⟨⟨by decide, ?_⟩, by decide +kernel, by decide +kernel⟩, ?_, by norm_num⟩
+  · intro j hj
+    have : j = 0 ∨ j = 1 := by simp at hj; omega
+    rcases this with rfl | rfl <;> decide +kernel
+  · intro x hx; simp at hx; rw [hx]; norm_num
+
+example : let g : Array ℚ := #[0, 1/4, 1]
+    let P : Dens := ⟨[3, 3], fun i => ((i.getD 0 0 + 2 * i.getD 1 0 + 1 : ℕ) : ℚ)⟩
+    (removeAxis g 2 (newPop [g, g] g [1/3] P)).f [1, 2] = P.f [1, 2] ∧
+    (removeAxis g 0 (pulse [g, g] 0 [1/3] P)).f [2] = (removeAxis g 0 P).f [2] ∧
+    (pulse [g, g] 0 [1/3] P).f [1, 2] ≠ P.f [1, 2] ∧
+    (pulse [g, g] 1 [0] P).f [1, 2] = P.f [1, 2] := by
+  decide +kernel
+
 /-- the general form: whatever the coefficients and grids, as long as each cell's deposit is well defined -/
 theorem C06_newpop_marginal_raw (grids : List (Array ℚ)) (zz : Array ℚ) (coefs : List ℚ) (P : Dens) (idx : Idx)
     (h2 : 2 ≤ zz.size) (hok : DepositOk zz (P.f idx) (adZ grids coefs idx)) :
